@@ -24,7 +24,7 @@ ASSUMPTIONS = [
 ]
 TIMEOUT = {"quick": 1200, "thorough": 3600}
 MIN_COUNTERS = {"quick": {"stores_checked": 200, "batches_checked": 150},
-                "thorough": {"stores_checked": 2000, "batches_checked": 3000}}
+                "thorough": {"stores_checked": 2000, "batches_checked": 1200}}
 
 BOXES = gens.DOMAINS_1D
 
